@@ -18,7 +18,9 @@ pub struct DamageCase {
     /// healthy companion files (0..3), sorted before/after the damaged one
     pub companions: Vec<SrcCase>,
     /// 0 scan with paths, 1 interactive scan, 2 list with paths, 3 diff, 4 diff + list,
-    /// 5 diff that only adds (or drops) the damaged file's final newline, 6 the same + list
+    /// 5 diff that only adds (or drops) the damaged file's final newline, 6 the same + list,
+    /// 7 diff that only removes a line in front of the damaged file's first line (every tag lies after the last
+    /// changed line), 8 the same + list
     pub mode: u8,
 }
 
@@ -86,23 +88,27 @@ pub fn check(c: &DamageCase, probe: &Probe) -> Verdict {
         companions.push((format!("{prefix}_ok{i}.{s}"), b.text));
     }
     probe.class(["damage:delete", "damage:duplicate", "damage:look-alike"][(c.kind % 3) as usize]);
-    probe.class(["mode:scan-paths", "mode:scan-interactive", "mode:list", "mode:diff", "mode:diff-list", "mode:newline-only-diff", "mode:newline-only-diff-list"][(c.mode % 7) as usize]);
+    probe.class(["mode:scan-paths", "mode:scan-interactive", "mode:list", "mode:diff", "mode:diff-list", "mode:newline-only-diff", "mode:newline-only-diff-list", "mode:first-line-only-diff", "mode:first-line-only-diff-list"][(c.mode % 9) as usize]);
     probe.class(&format!("suffix:{suffix}"));
     if healthy_version.blocks.iter().any(|b| b.depth > 0) || !companions.is_empty() {
         probe.nontrivial();
     }
-    let mode = c.mode % 7;
+    let mode = c.mode % 9;
     let run = |damaged: bool| -> Out {
         let sb = if mode >= 3 { Sandbox::new() } else { Sandbox::with_fake_git() };
         let text = if damaged { &bad.text } else { &healthy_version.text };
         if mode >= 3 {
             sb.init_repo();
             if mode >= 5 {
-                // the committed version differs in the final line terminator only: the diff names the file
-                // without changing a single character of any line
-                let old = match text.strip_suffix("\r\n").or_else(|| text.strip_suffix('\n')) {
-                    Some(t) => t.to_string(),
-                    None => format!("{text}\n"),
+                // modes 5/6: the committed version differs in the final line terminator only (the diff names the
+                // file without changing a single character of any line); modes 7/8: it has one more line on top
+                let old = if mode >= 7 {
+                    format!("removed first line\n{text}")
+                } else {
+                    match text.strip_suffix("\r\n").or_else(|| text.strip_suffix('\n')) {
+                        Some(t) => t.to_string(),
+                        None => format!("{text}\n"),
+                    }
                 };
                 sb.write(".gitattributes", b"* -text\n");
                 sb.write(&bad_path, old.as_bytes());
@@ -128,7 +134,7 @@ pub fn check(c: &DamageCase, probe: &Probe) -> Verdict {
             _ => {
                 sb.git_ok(&["add", "-A"]);
                 let d = sb.git_diff(&["--cached"]);
-                let args: Vec<&str> = if mode == 4 || mode == 6 { vec!["list"] } else { vec![] };
+                let args: Vec<&str> = if matches!(mode, 4 | 6 | 8) { vec!["list"] } else { vec![] };
                 sb.bw(&BwRun::diff(&args, d.as_bytes()))
             }
         }
@@ -166,13 +172,13 @@ pub fn case_strategy() -> BoxedStrategy<DamageCase> {
         s.events.insert(0, Ev::Open { tag, place });
         s
     });
-    (with_block, any::<u16>(), 0u8..3, proptest::collection::vec(src(), 0..4), 0u8..7)
+    (with_block, any::<u16>(), 0u8..3, proptest::collection::vec(src(), 0..4), 0u8..9)
         .prop_map(|(src, tag, kind, companions, mode)| DamageCase { src, tag, kind, companions, mode })
         .boxed()
 }
 
 pub fn run(run: &mut Run) {
-    run.rule = "random: a well-nested generated file of any of the 39 suffixes (as in C03, at least one block) with exactly one tag damaged (deleted / duplicated / turned into a look-alike; tag index uniform over all tags, so every nesting position occurs), alone or among 1..3 healthy files of other languages sorted before/after it, in 7 modes (scan with paths, interactive scan, list, new-file diff, diff + list, a diff that only adds or drops the damaged file's final line terminator, the same + list); expected: non-zero exit, error names the file, no listing; control run with the undamaged file exits 0. Non-trivial = the original structure is nested or companions are present.".into();
+    run.rule = "random: a well-nested generated file of any of the 39 suffixes (as in C03, at least one block) with exactly one tag damaged (deleted / duplicated / turned into a look-alike; tag index uniform over all tags, so every nesting position occurs), alone or among 1..3 healthy files of other languages sorted before/after it, in 9 modes (scan with paths, interactive scan, list, new-file diff, diff + list, a diff that only adds or drops the damaged file's final line terminator, the same + list, a diff that only removes a line above the file's first line, the same + list); expected: non-zero exit, error names the file, no listing; control run with the undamaged file exits 0. Non-trivial = the original structure is nested or companions are present.".into();
     run.assumptions = vec!["grammar-rejected sources are discarded".into()];
     run.random("damage", run.tier.pick(2500, 60000), case_strategy, check);
 }
